@@ -1,8 +1,8 @@
-From E2V Require Import Bitmap.RBModel Bitmap.BAModel.
+From E2V Require Import Bitmap.RBModel Bitmap.BAModel Bitmap.BmResize.
 Require Extraction.
 Require Import ExtrOcamlBasic.
 Extraction Language OCaml.
-Definition run_rb (g : geom) (ops : list op) := run0 RB g ops.
-Definition run_ba (al : N) (g : geom) (ops : list op) := run0 (BA al) g ops.
-Definition run_fs (g : geom) (ops : list op) := run0 FSet g ops.
+Definition run_rb (g : geom) (ops : list sop) := run_seg0 RB g ops.
+Definition run_ba (al : N) (g : geom) (ops : list sop) := run_seg0 (BA al) g ops.
+Definition run_fs (g : geom) (ops : list sop) := run_seg0 FSet g ops.
 Extraction "bitmap_model.ml" run_rb run_ba run_fs.
